@@ -366,3 +366,77 @@ def c11_6(R):
     for what in ("syn", "rst"):
         if what not in seen and nfound[0] >= 2:
             R.fail(["socket", "no-%s-header-literal" % what], "no conforming %s header is built by the dispatcher any more" % what.upper(), instance=what + "-header")
+
+
+@rule("C11.7", ["C11"], ["E4", "E7"], "header extensions are chained through the byte the parser follows",
+      "An extension block is [next-extension id][length][payload]; the chain starts at header byte 1. In UtpHeader::serialize every add_ext! expansion writes the terminator NO_NEXT_EXT at buffer[offset], "
+      "the length at buffer[offset + 1] and the payload at buffer[offset + 2 ..]; the id of the NEXT extension is later stored at buffer[next_ext_pos], so next_ext_pos must be updated to the index where this "
+      "block's terminator was written (offset + 0) - any other value overwrites the length byte or payload of the previous block and a header with two extensions does not survive a round trip. "
+      "UtpHeader::deserialize reads the same three positions (first()/[0], get(1), get(2 .. 2 + len)) and advances by 2 + len, as serialize does.")
+def c11_7(R):
+    b = R.body(SER)
+    # index writes buffer[i] = v
+    idx_writes = []
+    for s in b.stmts():
+        pr = s.place.proj
+        if any(isinstance(p, list) and p and p[0] == "i" for p in pr) and s.rv is not None and s.rv.kind in ("use", "cast"):
+            il = [p[1] for p in pr if isinstance(p, list) and p and p[0] == "i"][0]
+            idx_writes.append((s, il))
+    ids = [(s, il) for s, il in idx_writes if s.rv.ops[0].kind == "const" and (s.rv.ops[0].const_item or "").startswith("raw::EXT_")]
+    terms = [(s, il) for s, il in idx_writes if s.rv.ops[0].kind == "const" and s.rv.ops[0].const_item == "raw::NO_NEXT_EXT"]
+    R.floor("extension id stores in serialize", len(ids), 2)
+    R.floor("NO_NEXT_EXT stores in serialize", len(terms), 2)
+    ptrs = {copy_root(b, Place({"l": il, "p": []})) for s, il in ids}
+    R.require(len(ptrs) == 1, "one chain-pointer variable (next_ext_pos) indexes every extension id store")
+    ptr = ptrs.pop()
+    # where the terminators go, relative to the running offset variable
+    offs = set()
+    tk = set()
+    for s, il in terms:
+        d = b.unique_def(il)
+        if isinstance(d, Stmt) and d.rv.kind == "use":
+            bt, k = int_affine(b, d.rv.ops[0])
+            if bt.kind == "multi" and not bt.fields:
+                offs.add(bt.root[1])
+                tk.add(k)
+    # header byte 1 also holds a terminator (NEXT_EXT_IDX): only the ones relative to the running offset count
+    R.require(len(offs) == 1 and tk, "terminators are stored relative to one running offset variable")
+    off = offs.pop()
+    updates = [d for d in b.all_defs(ptr) if isinstance(d, Stmt) and not (d.rv.kind == "use" and d.rv.ops[0].kind == "const")]
+    R.floor("updates of the chain pointer", len(updates), 2)
+    for d in updates:
+        bt, k = int_affine(b, d.rv.ops[0]) if d.rv.kind == "use" else (trace(b, d.place), None)
+        if bt.kind == "multi" and bt.root[1] == off and k is not None and {k} == tk:
+            R.ok("chain-pointer=terminator-position", b.name, "next_ext_pos = offset%+d, where NO_NEXT_EXT was stored" % k)
+        else:
+            R.fail([SER, "next_ext_pos", "offset%+d" % k if k is not None else "?", "terminator-at=offset%s" % ",".join("%+d" % x for x in sorted(tk))],
+                   "after writing an extension the chain pointer is set to offset%s but this block's next-extension byte is at offset%s: the next extension's id overwrites the previous block's %s, "
+                   "so a header carrying two extensions is not parsed back (length and payload boundary shift)" % ("%+d" % k if k is not None else "?", ",".join("%+d" % x for x in sorted(tk)), "length byte" if k == 1 else "bytes"),
+                   where=d.where(), instance="chain-pointer=terminator-position")
+    # the three positions in the parser
+    d_ = R.body(DES)
+    pos = {}
+    for t in d_.calls():
+        if call_matches(t, ("core::slice::first",)):
+            pos["next@0"] = True
+        if call_matches(t, ("core::slice::get",)) and len(t.args) == 2:
+            a = t.args[1]
+            if a.kind == "const" and a.scalar == 1:
+                pos["len@1"] = True
+            rg = trace(d_, a)
+            if rg.kind == "rv" and rg.root[1].rv.kind == "agg" and rg.root[1].rv.j.get("adt", "").startswith("std::ops::Range") and rg.root[1].rv.ops:
+                st = rg.root[1].rv.ops[0]
+                names = rg.root[1].rv.j.get("fields", [])
+                if names == ["start", "end"] and st.kind == "const" and st.scalar == 2:
+                    bt, k = int_affine(d_, rg.root[1].rv.ops[1])
+                    pos["data@2..2+len"] = True
+                if names == ["start"]:
+                    bt, k = int_affine(d_, rg.root[1].rv.ops[0])
+                    tt = trace(d_, rg.root[1].rv.ops[0], through_casts=False)
+                    if tt.kind == "rv" and tt.root[1].rv.kind == "bin" and any(o.kind == "const" and o.scalar == 2 for o in tt.root[1].rv.ops):
+                        pos["advance=2+len"] = True
+    for k_ in ("next@0", "len@1", "data@2..2+len", "advance=2+len"):
+        if pos.get(k_):
+            R.ok("parser-extension-layout", k_)
+        else:
+            R.fail([DES, "extension-layout", k_], "the parser no longer reads an extension block as [next id][length][payload] (%s missing)" % k_, where=d_.where(), instance="parser-extension-layout")
